@@ -79,7 +79,7 @@ class ExprMixin:
             return self.ev_const_expr(mod, mod.consts[name])
         if name in ("range", "len", "min", "max", "abs", "int", "float", "bool", "divmod", "round", "sum",
                     "isinstance", "enumerate", "zip", "getattr", "bytearray", "memoryview", "str", "list",
-                    "tuple", "print", "type", "prange", "set", "dict", "any", "all"):
+                    "tuple", "print", "type", "prange", "set", "dict", "any", "all", "super"):
             return VFunc("builtin", name)
         if name in ("ValueError", "OSError", "TypeError", "RuntimeError", "BlockingIOError", "IndexError",
                     "NotImplementedError", "Exception", "KeyError", "ZeroDivisionError"):
@@ -374,11 +374,23 @@ class ExprMixin:
             if attr == "shape":
                 return VTuple([VInt(base.n)])
             return VFunc("arrmethod", attr, base)
+        if isinstance(base, (VReal, VInt)) and attr == "astype":
+            return VFunc("scalarmethod", attr, base)
         if isinstance(base, VDtype):
             if attr == "itemsize":
                 return VInt({"u1": 1, "u2": 2, "i4": 4, "f4": 4, "f8": 8, "i8": 8, "b1": 1, "c8": 8}[base.name])
             if attr == "type":
                 return base
+        if type(base).__name__ == "VSuper":
+            mod_ = self.src.module(base.file)
+            for b in mod_.classes[base.cls][1]:
+                bf = self.src.class_file(base.file, b)
+                if bf is None:
+                    continue
+                fi_ = self.src.find_method(bf, b, attr)
+                if fi_ is not None:
+                    return VFunc("method", fi_.key, base.obj)
+            raise OutOfSubset(f"line {line}: super().{attr}")
         if isinstance(base, VDict):
             return VFunc("dictmethod", attr, base)
         if isinstance(base, VList):
